@@ -10,9 +10,8 @@
     C09_mul_sat, C09_div_sat      Saturating `*=`, `/=` = exact exponent sum / difference, clamp to maxpos, flush to zero,
                                   sign product, zero absorbing, NaN propagating (all inside `mulDivSat`)
     C09_mul_wrap                  Wrapping `*=` = exponent sum modulo 2^(nbits-1), sign product, specials
-    C09_div_wrap_iff              Wrapping `/=` satisfies the property on numeric operands IFF the divisor's exponent is 0
-                                  (the code adds the exponents — defect D9); C09_div_wrap_counterexample is a witness
-    C09_div_wrap_specials         the prologue of Wrapping `/=` (zero / NaN operands) does satisfy the property
+    C09_div_wrap                  Wrapping `/=` = exponent difference modulo 2^(nbits-1), sign product, specials (full
+                                  statement; holds since the repair f65bb52 `lexp -= rexp` — before it the code added)
     C09_neg                       unary minus flips the sign of numbers and fixes zero and NaN
     C09_nan_propagates_mul/div, C09_zero_absorbing_mul, C09_sign_product_sat   readable corollaries
     C09_blocktype_independent_*   the result does not depend on the block width (u8/u16/u32/… all agree)
@@ -179,76 +178,41 @@ theorem C09_mul_wrap (c : Cfg) (hn : 2 ≤ c.nbits) (hw : 1 ≤ c.w) (hs : c.wra
   simp only [Bool.and_eq_true, decide_eq_true_eq, beq_iff_eq]
   exact ⟨⟨w1, w2⟩, w3⟩
 
-/-- C09, Wrapping division is FALSE of the pinned code in general (D9).  Exactly: on numeric operands the result
-    satisfies the property iff the divisor's exponent is 0 (dividing by ±1). -/
-theorem C09_div_wrap_iff (c : Cfg) (hn : 2 ≤ c.nbits) (hw : 1 ≤ c.w) (hs : c.wrap = true) (a b : Nat)
-    (ha : a < 2 ^ c.nbits) (hb : b < 2 ^ c.nbits) (sa sb : Bool) (ea eb : Int)
-    (hda : decode c.nbits a = Val.num sa ea) (hdb : decode c.nbits b = Val.num sb eb) :
-    mulDivWrapOk c.nbits true (decode c.nbits a) (decode c.nbits b) (div c a b) = true ↔ eb = 0 := by
-  have h1 : a ≠ 2 ^ (c.nbits - 1) + 2 ^ (c.nbits - 2) := by
-    intro h; rw [h, decode_nanEnc hn] at hda; cases hda
-  have h2 : b ≠ 2 ^ (c.nbits - 1) + 2 ^ (c.nbits - 2) := by
-    intro h; rw [h, decode_nanEnc hn] at hdb; cases hdb
-  have h3 : a ≠ 2 ^ (c.nbits - 2) := by
-    intro h; rw [h, decode_zeroEnc hn] at hda; cases hda
-  have h4 : b ≠ 2 ^ (c.nbits - 2) := by
-    intro h; rw [h, decode_zeroEnc hn] at hdb; cases hdb
-  obtain ⟨la1, la2, hda'⟩ := decode_numeric hn ha h3 h1
-  obtain ⟨lb1, lb2, hdb'⟩ := decode_numeric hn hb h4 h2
-  obtain ⟨d1, d2, d3⟩ := div_wrap_numeric c hn hw hs a b ha hb h1 h2 h3 h4
-  rw [hda] at hda'; rw [hdb] at hdb'
-  injection hda' with hsa hea
-  injection hdb' with hsb heb
-  rw [hda, hdb]
-  simp only [mulDivWrapOk, wrapFields, if_true, Bool.and_eq_true, decide_eq_true_eq, beq_iff_eq]
-  rw [hea, heb, ofSigned_sub (by omega) la1 lb1, d2, d3, hsa, hsb]
-  have hL := toSigned_eq (show 1 ≤ c.nbits - 1 by omega) lb1
-  rw [show c.nbits - 1 - 1 = c.nbits - 2 by omega] at hL
-  rw [hL]
-  clear hL hea heb hda hdb d2 d3 hsa hsb
-  obtain ⟨p, hp, e2, e1, e0, e3⟩ := pow_n_var hn
-  rw [e2] at lb2 la2 ⊢; rw [e1] at la1 lb1 la2 lb2 ⊢
-  generalize a % (2 * p) = x at *
-  generalize b % (2 * p) = y at *
-  have m1 : (x + y) % (2 * p) = if x + y < 2 * p then x + y else x + y - 2 * p := mod_lt2 (by omega)
-  have m2 : (x + (2 * p - y)) % (2 * p) = if x + (2 * p - y) < 2 * p then x + (2 * p - y) else x + (2 * p - y) - 2 * p :=
-    mod_lt2 (by omega)
-  rw [m1, m2]
-  clear m1 m2
-  push_cast
-  constructor
-  · rintro ⟨_, h⟩; split_ifs at h ⊢ <;> omega
-  · intro h; refine ⟨⟨d1, rfl⟩, ?_⟩; split_ifs at h ⊢ <;> omega
-
-/-- D9 at a concrete witness: Wrapping `1 / 2^(1/4)` in lns<4,2,uint8_t> returns the encoding of `2^(1/4)`. -/
-theorem C09_div_wrap_counterexample :
-    ¬ mulDivWrapOk 4 true (decode 4 0) (decode 4 1) (div ⟨4, 2, 8, true⟩ 0 1) = true := by decide
-
-/-- the prologue of Wrapping `/=` is right: zero / NaN operands -/
-theorem C09_div_wrap_specials (c : Cfg) (hn : 2 ≤ c.nbits) (hw : 1 ≤ c.w) (hs : c.wrap = true) (a b : Nat)
-    (ha : a < 2 ^ c.nbits) (hb : b < 2 ^ c.nbits)
-    (hsp : (∀ s e, decode c.nbits a ≠ Val.num s e) ∨ (∀ s e, decode c.nbits b ≠ Val.num s e)) :
+/-- C09, Wrapping division: exponent field = exact DIFFERENCE reduced modulo 2^(nbits-1), sign = product of signs,
+    0/x = 0, NaN propagating, x/0 unconstrained — for every configuration and operand pair
+    (the full statement; the code was repaired in commit f65bb52, before that it added the exponents). -/
+theorem C09_div_wrap (c : Cfg) (hn : 2 ≤ c.nbits) (hw : 1 ≤ c.w) (hs : c.wrap = true) (a b : Nat)
+    (ha : a < 2 ^ c.nbits) (hb : b < 2 ^ c.nbits) :
     mulDivWrapOk c.nbits true (decode c.nbits a) (decode c.nbits b) (div c a b) = true := by
-  unfold div
-  simp only [isNaN_eq hn hw ha, isNaN_eq hn hw hb, isZero_eq hn hw ha, isZero_eq hn hw hb, sign_eq hw, hs]
-  by_cases h1 : a = 2 ^ (c.nbits - 1) + 2 ^ (c.nbits - 2)
-  · simp [h1, decode_nanEnc hn, mulDivWrapOk]
-  simp only [h1, decide_false, Bool.false_eq_true, if_false]
-  by_cases h2 : b = 2 ^ (c.nbits - 1) + 2 ^ (c.nbits - 2)
-  · simp only [h2, decide_true, if_true, setNaN_eq hn, decode_nanEnc hn]
-    cases decode c.nbits a <;> simp [mulDivWrapOk, decode_nanEnc hn]
-  simp only [h2, decide_false, Bool.false_eq_true, if_false]
-  by_cases h4 : b = 2 ^ (c.nbits - 2)
-  · simp only [h4, decide_true, if_true, setNaN_eq hn, decode_zeroEnc hn]
-    cases decode c.nbits a <;> simp [mulDivWrapOk, decode_nanEnc hn]
-  simp only [h4, decide_false, Bool.false_eq_true, if_false]
-  obtain ⟨_, _, hdb⟩ := decode_numeric hn hb h4 h2
-  by_cases h3 : a = 2 ^ (c.nbits - 2)
-  · simp [h3, decode_zeroEnc hn, hdb, mulDivWrapOk]
-  · obtain ⟨_, _, hda⟩ := decode_numeric hn ha h3 h1
-    rcases hsp with h | h
-    · exact absurd hda (h _ _)
-    · exact absurd hdb (h _ _)
+  by_cases hnum : a ≠ 2 ^ (c.nbits - 1) + 2 ^ (c.nbits - 2) ∧ b ≠ 2 ^ (c.nbits - 1) + 2 ^ (c.nbits - 2) ∧
+      a ≠ 2 ^ (c.nbits - 2) ∧ b ≠ 2 ^ (c.nbits - 2)
+  · -- numeric / numeric: exponent fields subtracted modulo 2^(nbits-1)
+    obtain ⟨h1, h2, h3, h4⟩ := hnum
+    obtain ⟨la1, la2, hda⟩ := decode_numeric hn ha h3 h1
+    obtain ⟨lb1, lb2, hdb⟩ := decode_numeric hn hb h4 h2
+    obtain ⟨d1, d2, d3⟩ := div_wrap_numeric c hn hw hs a b ha hb h1 h2 h3 h4
+    rw [hda, hdb]
+    simp only [mulDivWrapOk, wrapFields, if_true, Bool.and_eq_true, decide_eq_true_eq, beq_iff_eq]
+    rw [ofSigned_sub (by omega) la1 lb1, d2, d3, add_twosComp_mod lb1]
+    exact ⟨⟨d1, rfl⟩, rfl⟩
+  · -- a zero or NaN operand: the prologue
+    unfold div
+    simp only [isNaN_eq hn hw ha, isNaN_eq hn hw hb, isZero_eq hn hw ha, isZero_eq hn hw hb, sign_eq hw, hs]
+    by_cases h1 : a = 2 ^ (c.nbits - 1) + 2 ^ (c.nbits - 2)
+    · simp [h1, decode_nanEnc hn, mulDivWrapOk]
+    simp only [h1, decide_false, Bool.false_eq_true, if_false]
+    by_cases h2 : b = 2 ^ (c.nbits - 1) + 2 ^ (c.nbits - 2)
+    · simp only [h2, decide_true, if_true, setNaN_eq hn, decode_nanEnc hn]
+      cases decode c.nbits a <;> simp [mulDivWrapOk, decode_nanEnc hn]
+    simp only [h2, decide_false, Bool.false_eq_true, if_false]
+    by_cases h4 : b = 2 ^ (c.nbits - 2)
+    · simp only [h4, decide_true, if_true, setNaN_eq hn, decode_zeroEnc hn]
+      cases decode c.nbits a <;> simp [mulDivWrapOk, decode_nanEnc hn]
+    simp only [h4, decide_false, Bool.false_eq_true, if_false]
+    obtain ⟨_, _, hdb⟩ := decode_numeric hn hb h4 h2
+    by_cases h3 : a = 2 ^ (c.nbits - 2)
+    · simp [h3, decode_zeroEnc hn, hdb, mulDivWrapOk]
+    · exact absurd ⟨h1, h2, h3, h4⟩ hnum
 
 /-- unary minus: numbers change sign, zero and NaN are fixed points -/
 theorem C09_neg (c : Cfg) (hn : 2 ≤ c.nbits) (hw : 1 ≤ c.w) (a : Nat) (ha : a < 2 ^ c.nbits) :
@@ -396,6 +360,5 @@ example : mul ⟨8, 4, 8, false⟩ 0xb8 0x3c = 0xbf ∧ decode 8 0xbf = Val.num 
 example : mul ⟨9, 4, 8, false⟩ 0x81 0x81 = 0x80 ∧ decode 9 0x80 = Val.zero := by decide
 -- lns<16,8,uint8_t> Wrapping: exponent sum wraps
 example : mul ⟨16, 8, 8, true⟩ 0x3fff 0x0002 = 0x4001 := by decide
--- C09_div_wrap_iff, both directions are inhabited
-example : mulDivWrapOk 8 true (decode 8 0x12) (decode 8 0x00) (div ⟨8, 4, 8, true⟩ 0x12 0x00) = true := by decide
-example : mulDivWrapOk 8 true (decode 8 0x12) (decode 8 0x03) (div ⟨8, 4, 8, true⟩ 0x12 0x03) = false := by decide
+-- Wrapping division: 2^(1.125) / 2^(0.1875) = 2^(0.9375) (0x12 - 0x03 = 0x0f); and a difference that wraps
+example : div ⟨8, 4, 8, true⟩ 0x12 0x03 = 0x0f ∧ div ⟨8, 4, 8, true⟩ 0x41 0x3f = 0x02 := by decide
